@@ -30,12 +30,13 @@ TIERS = {
     'quick': {'shards': 14, 'random': 14000, 'timeout': 600, 'min_cases': 9000,
               'require_branches': ['singular:t=0', 'singular:t=1', 'singular:nondyadic', 'scalar:numpy', 'heading:left-half-plane',
                                    'relation:rotation', 'relation:reversal', 'relation:scaling', 'arc:circular', 'kind:path',
-                                   'triple:start', 'triple:end', 'arc:radius-scaled-up']},
+                                   'triple:start', 'triple:end', 'arc:radius-scaled-up', 'hook', 'closed-singular',
+                                   'path:curvature-at-smooth-joint']},
     'thorough': {'shards': 14, 'random': 500000, 'timeout': 3000, 'min_cases': 250000,
                  'require_branches': ['singular:t=0', 'singular:t=1', 'singular:nondyadic', 'scalar:numpy',
                                       'heading:left-half-plane', 'relation:rotation', 'relation:reversal',
                                       'relation:scaling', 'arc:circular', 'kind:path', 'triple:start', 'triple:end',
-                                      'arc:radius-scaled-up']},
+                                      'arc:radius-scaled-up', 'hook', 'closed-singular', 'path:curvature-at-smooth-joint']},
 }
 EPS = gen.EPS
 
@@ -281,9 +282,29 @@ def post_path_curv(call):
         except Exception:
             return False
     if t < 1e-6 or t > 1 - 1e-6:
-        ctx.skip('Path.curvature at a joint (may legitimately be inf)')
-        return False
-    return judge_curvature(ctx, 'Path:', p[k], t, call.ret)
+        # at a joint the path's curvature is that of the owning segment if the two unit tangents agree (the docstring
+        # promises inf only where the path is not differentiable); speeds may differ - curvature does not depend on
+        # the parameterisation.  Judged for Bezier/Line neighbours whose reference tangents agree to 1e-9.
+        j = k - 1 if t < 1e-6 else k + 1
+        if not (0 <= j < len(p)) or type(p[k]).__name__ == 'Arc' or type(p[j]).__name__ == 'Arc':
+            ctx.skip('Path.curvature at a joint (may legitimately be inf)')
+            return False
+        a, b = (p[j], p[k]) if t < 1e-6 else (p[k], p[j])
+        if a.end != b.start:
+            ctx.skip('Path.curvature at a joint (may legitimately be inf)')
+            return False
+        ta, ka = ref_tangent(_bps(a), 1)
+        tb, kb = ref_tangent(_bps(b), 0)
+        if ta is None or tb is None or ka != 'regular' or kb != 'regular' or abs(ta - tb) > 1e-9:
+            ctx.skip('Path.curvature at a joint (may legitimately be inf)')
+            return False
+        ctx.branch('path:curvature-at-smooth-joint')
+        if not math.isfinite(float(call.ret)):
+            ctx.verdict()
+            ctx.violation('Path.curvature/inf-at-smooth-joint', 'Path.curvature is inf at a joint whose unit tangents agree',
+                          {'T': float(T), 'k': k, 't': float(t), 'path': gen.path_spec(p)})
+            return True
+    return judge_curvature(ctx, 'Path:', p[k], min(1.0, max(0.0, float(t))), call.ret)
 
 
 def install(ctx):
@@ -334,6 +355,17 @@ def cases(ctx):
                 e = s0 + sc * (3 * d + 0.4 * perp)
                 c1 = s0 if where in ('start', 'both') else s0 + sc * (d + 0.5 * perp)
                 c2 = e if where in ('end', 'both') else s0 + sc * (2 * d + 0.3 * perp)
+                if rng.random() < 0.25 and where != 'both':
+                    # a hook: the curve leaves its start (arrives at its end) pointing AWAY from the other end
+                    if where == 'start':
+                        c2 = s0 + sc * (-1.5 * d + 0.6 * perp)
+                    else:
+                        c1 = e + sc * (1.5 * d - 0.6 * perp)
+                    cls.append('hook')
+                elif rng.random() < 0.08:
+                    e = s0                      # closed cubic with a singular end
+                    c2 = e if where in ('end', 'both') else c2
+                    cls.append('closed-singular')
                 if rng.random() < 0.15 and where == 'start':
                     c2 = s0                     # triple point at the start: first non-vanishing derivative is B'''
                     cls.append('triple:start')
@@ -364,6 +396,25 @@ def cases(ctx):
             ts = [0, 1, rng.uniform(0, 1), rng.uniform(0, 1)]
             cls.append('arc')
         else:
+            if rng.random() < 0.3:
+                # joints that are smooth in direction but not in speed: a cubic cut (exactly: integer control points,
+                # dyadic cut) at s != 1/2 by the oracle's own de Casteljau, and collinear lines of unequal length
+                pts = [complex(rng.randint(-20, 20), rng.randint(-20, 20)) for _ in range(4)]
+                if len(set(pts)) < 4:
+                    continue
+                cut = rng.choice([0.25, 0.75, 0.125, 0.375])
+                le, ri = X.split(pts, cut)
+                le = [[float(a), float(b)] for a, b in le]
+                ri = [[float(a), float(b)] for a, b in ri]
+                dirn = complex(*ri[3]) - complex(*ri[2])
+                if dirn == 0:
+                    continue
+                e1 = complex(*ri[3]) + dirn * 0.5
+                e2 = e1 + dirn * 2.5
+                specs = [['C'] + le, ['C'] + ri, ['L', ri[3], [e1.real, e1.imag]], ['L', [e1.real, e1.imag], [e2.real, e2.imag]]]
+                yield {'kind': 'path', 'segs': specs, 'Ts': [rng.uniform(0.01, 0.99)], 'joints': True,
+                       'cls': ['path', 'path:smooth-joints']}
+                continue
             kinds = [rng.choice('LQCA') for _ in range(rng.randint(2, 5))]
             specs = gen.rand_path_specs(rng, kinds, 'rand')
             if any(s[0] == 'A' and s[1] == s[-1] for s in specs) or any(s[0] == 'L' and s[1] == s[2] for s in specs):
@@ -386,14 +437,20 @@ def _safe(f, *a):
 def run_case(ctx, case):
     if case['kind'] == 'path':
         p = gen.path(case['segs'])
-        for T in case['Ts']:
+        Ts = list(case['Ts'])
+        if case.get('joints'):
+            ctx.branch('path:smooth-joints')
+            for k in range(len(p) - 1):
+                with monitor.suspended():
+                    Ts += [p.t2T(k, 1.0), p.t2T(k, 1 - 1e-9), p.t2T(k + 1, 1e-9)]
+        for T in Ts:
             _safe(p.unit_tangent, T)
             _safe(p.curvature, T)
             _safe(p.normal, T)
         return
     s = gen.seg(case['seg'])
     for c in case['cls']:
-        if c in ('triple:start', 'triple:end', 'arc:radius-scaled-up'):
+        if c in ('triple:start', 'triple:end', 'arc:radius-scaled-up', 'hook', 'closed-singular'):
             ctx.branch(c)
     ts = case['ts']
     if case['scalar'] == 'np':
